@@ -18,11 +18,11 @@ import (
 // printed), 2 the harness could not do its job (never a VIOLATION line).
 
 type tierCfg struct {
-	Runs      uint64 // run budget (the explored set is a function of seed and tier)
-	CapS      int    // wall-clock safety net for the search phase
-	DetSeeds  int    // determinism self-test sample
-	ShrinkS   int
-	RaceRuns  uint64
+	Runs     uint64 // run budget (the explored set is a function of seed and tier)
+	CapS     int    // wall-clock safety net for the search phase
+	DetSeeds int    // determinism self-test sample
+	ShrinkS  int
+	RaceRuns uint64
 }
 
 // budgets per property and tier; sized from measured throughput so that quick
@@ -131,7 +131,7 @@ func DriverMain(args []string) int {
 		}
 		seenClass[v.Class()]++
 		mv := v
-		if time.Now().Before(shrinkDeadline) && v.World != nil && agg.raceOf[v] == "" {
+		if time.Now().Before(shrinkDeadline) && v.World != nil && agg.raceOf[v] == "" && v.Kind != "hang" {
 			mv = Shrink(registry[prop], v, time.Duration(cfg.ShrinkS)*time.Second)
 		}
 		if f := kf.Match(registry[prop], mv); f != nil {
@@ -188,6 +188,7 @@ type Aggregate struct {
 	WorkerWall float64
 	raceOf     map[*Violation]string
 	Extra      map[string]interface{}
+	noShrink   bool
 }
 
 func newAggregate() *Aggregate {
@@ -281,6 +282,7 @@ func search(prop, tier string, base uint64, cfg tierCfg, workers int, tmp string
 	var wg sync.WaitGroup
 	var mu sync.Mutex
 	fail := ""
+	var hangs []*World
 	for wi := 0; wi < workers; wi++ {
 		cnt := cfg.Runs / uint64(workers)
 		if uint64(wi) < cfg.Runs%uint64(workers) {
@@ -302,12 +304,35 @@ func search(prop, tier string, base uint64, cfg tierCfg, workers int, tmp string
 				fail = res.Crash
 				return
 			}
+			if res.Hang != nil {
+				hangs = append(hangs, res.Hang)
+				return
+			}
 			agg.merge(res)
 		}()
 	}
 	wg.Wait()
 	if fail != "" {
 		fmt.Println("HARNESS-ERROR:", firstLines(fail, 40))
+		return agg, 2
+	}
+	for i, hw := range hangs {
+		// a suspected hang counts only if it reproduces alone in a fresh process
+		path := filepath.Join(tmp, fmt.Sprintf("hang%d.json", i))
+		b, _ := json.Marshal(map[string]interface{}{"property": prop, "kind": "hang", "world": hw})
+		os.WriteFile(path, b, 0o644)
+		spec := WorkerSpec{Prop: prop, Tier: tier, Base: base, Count: 1, Stride: 1, Replay: path, Out: filepath.Join(tmp, fmt.Sprintf("hang%d.out.json", i))}
+		var sets [4]map[uint64]struct{}
+		for k := range sets {
+			sets[k] = map[uint64]struct{}{}
+		}
+		res, out, err := spawn(bin, spec, 1, nil, sets, nil)
+		if err == nil && res.Hang != nil {
+			agg.Violations = append(agg.Violations, &Violation{Prop: prop, Kind: "hang", Msg: "a call into the library did not return within 20 s (reproduced alone in a fresh process)", World: hw})
+			agg.noShrink = true
+			continue
+		}
+		fmt.Println("HARNESS-ERROR: a worker stopped making progress but the run did not hang when repeated alone;", err, firstLines(out, 10))
 		return agg, 2
 	}
 	return agg, 0
